@@ -123,6 +123,14 @@ func run(c *lib.Ctx) error {
 	if len(hist) > 0 && len(hist[0]) > 8 {
 		c.Sample(hist[0][:8])
 	}
+	if os.Getenv("VERIF_SELFTEST_CORRUPT") != "" { // development-time vacuity guard: the judge must reject a falsified recording
+		for i := range hist[0] {
+			if e := &hist[0][len(hist[0])-1-i]; e.Get.Ok {
+				e.Get.N++
+				break
+			}
+		}
+	}
 	wg.Add(1)
 	go func() {
 		defer wg.Done()
@@ -243,7 +251,7 @@ func run(c *lib.Ctx) error {
 	c.AddTraces(nb)
 	c.Set("exhaustive", true)
 	c.Set("g_behaviours", nb)
-	c.Assume("TLC trusted; texts are token sequences (a, b, NUL+0xff, ' c', e-acute) mapped 1:1 to strings, prefix relation preserved; the database under the hybrid store is the real bbolt-backed store opened with NoSync (durability is C25); deleting a command below the frozen bound while a cursor is live makes that cursor's later results Unspecified (not compared); deleting a command added by this session and failing databases are outside the model; a cursor's view is the session's view at the moment the cursor is made")
+	c.Assume("TLC trusted; texts are token sequences (a, b, NUL+0xff, ' c', e-acute) mapped 1:1 to strings, prefix relation preserved; the database under the hybrid store is the real bbolt-backed store opened with NoSync (durability is C25); deleting a command below the frozen bound or adding a command in this session while a cursor is live makes that cursor's later results Unspecified (not compared; additions by other sessions must stay invisible and are compared); deleting a command added by this session and failing databases are outside the model; a new cursor sees the session's view of the moment it is made")
 	return nil
 }
 
